@@ -56,10 +56,36 @@ theorem gcRule2_iff (tar st : St) :
 theorem gcSame_iff (tar st : St) : Gen.gcSame tar st = true ↔ tar.state = st.state := by
   simp [Gen.gcSame]
 
-theorem gcLess_iff (o : Opt) (s other : Rt) :
-    Gen.gcLess o s other = true ↔
-      (o.maxHead ≠ 0 ∧ other.head < s.head) ∨ (o.maxHead = 0 ∧ other.proc < s.proc) := by
-  simp [Gen.gcLess]
+theorem gcLess_iff (o : Opt) (s other : Rt) (i j : Nat) : Gen.gcLess o s other i j = true ↔
+    (o.maxHead ≠ 0 ∧ other.head < s.head) ∨ (o.maxHead = 0 ∧ other.proc < s.proc) ∨
+    (o.maxHead ≠ 0 ∧ other.head = s.head ∧ j < i) ∨ (o.maxHead = 0 ∧ other.proc = s.proc ∧ j < i) := by
+  by_cases h : o.maxHead = 0 <;> simp [Gen.gcLess, h]
+
+/-- rule 3 orders the shards strictly: by the load in the configured dimension, then by position;
+    so of two distinct shards exactly one is "less" than the other -/
+def gcKey (o : Opt) (r : Rt) : Int := if o.maxHead = 0 then r.proc else r.head
+
+theorem gcLess_lex (o : Opt) (s other : Rt) (i j : Nat) : Gen.gcLess o s other i j = true ↔
+    gcKey o other < gcKey o s ∨ (gcKey o other = gcKey o s ∧ j < i) := by
+  rw [gcLess_iff]; unfold gcKey
+  by_cases h : o.maxHead = 0 <;> simp [h]
+
+theorem gcLess_total (o : Opt) (a b : Rt) (i j : Nat) (hij : i ≠ j) :
+    (Gen.gcLess o a b i j = true ∧ Gen.gcLess o b a j i = false) ∨
+    (Gen.gcLess o a b i j = false ∧ Gen.gcLess o b a j i = true) := by
+  have e1 := gcLess_lex o a b i j
+  have e2 := gcLess_lex o b a j i
+  by_cases h1 : Gen.gcLess o a b i j = true
+  · left; refine ⟨h1, ?_⟩
+    cases h2 : Gen.gcLess o b a j i with
+    | false => rfl
+    | true => have := e1.mp h1; have := e2.mp h2; omega
+  · right
+    have h1' : Gen.gcLess o a b i j = false := by simpa using h1
+    refine ⟨h1', ?_⟩
+    apply e2.mpr
+    have hn : ¬ (gcKey o b < gcKey o a ∨ (gcKey o b = gcKey o a ∧ j < i)) := fun x => h1 (e1.mpr x)
+    omega
 
 theorem headEnabled_iff (o : Opt) : Gen.headEnabled o = true ↔ o.maxHead ≠ 0 := by
   simp [Gen.headEnabled]
